@@ -4,6 +4,7 @@ from fractions import Fraction
 
 import cfgmodel as M
 import translate_exprs as TE
+import translate_cfg as TC
 from cfgcheck import LangTable, finitely_ambiguous, run_jobs
 from common import CoqError, coq_eval_values, coq_eval_bools, cq, dec_val, close_enough
 
@@ -109,7 +110,13 @@ def run(ctx):
     except TE.Refuse as e:
         ctx.obligation("translate_exprs", False, f"translator refused: {e}")
         tr_ok = False
-    ok, out = ctx.build(["proofs/NormProofs.vo", "proofs/PrefixChart.vo"]) if tr_ok else (False, "translator")
+    try:
+        ctx.cov["translators"].append(TC.main())
+        ctx.obligation("translate_cfg", True)
+    except TC.Refuse as e:
+        ctx.obligation("translate_cfg", False, f"translator refused: {e}")
+        tr_ok = False
+    ok, out = ctx.build(["proofs/NormProofs.vo", "proofs/PrefixChart.vo", "proofs/GenCfgBridge.vo"]) if tr_ok else (False, "translator")
     if ok:
         ctx.prove("props/C20.v")
     else:
